@@ -31,7 +31,7 @@ import (
 func init() {
 	eng.Register(&eng.Monitor{
 		ID: "C19", Level: "exploration",
-		Rule:  "cases: lit/* = batches of generated rlwe/bgv/ckks parameter literals (a valid boundary-heavy base literal with explicit primes, then at most one mutation out of ~55: logN outside [4,20], duplicate/composite/non-NTT-friendly/oversized primes, empty or doubly specified moduli, size requests of every size incl. custom root orders, invalid ring type/distributions, plaintext-modulus and default-scale classes); a reference validator decides whether the literal must be refused, may be refused, or must be accepted, and every accepted literal is exercised (ring arithmetic, encryption/decryption, encoding). gen/* = rlwe.GenModuli and ring.NTTFriendlyPrimesGenerator for every size 1..61 at one root order; rt/* = JSON/binary/literal round trips; derived/* = accessors vs definitions; shipped/* = one case per exported example/default set; boot/* = bootstrapping literals at small ring degree; lit/boundary-logN* = the ends of the admissible ring degrees (logN 3, 4, 20, 21) with primes that fit every degree; hang/* = size requests whose effective root order is >= 2^62, run under a 10 s deadline. distinct key = (scheme, mutation, logN, ring type, #Q, #P, prime bit-lengths or requested sizes, distribution kinds, plaintext-modulus/scale class) for literals, (function, root order, size, count) for generators, (object kind, encoding, variant) for round trips, set name for shipped sets; non-trivial = the literal is mutated, or carries a prime of <= logNthRoot+3 or >= 59 bits, or a size request, or a non-default distribution/ring type; generator requests with count >= 2 or size within 3 of the root order or >= 59; every round-trip, derived, shipped, boot and hang case.",
+		Rule:  "cases: lit/* = batches of generated rlwe/bgv/ckks parameter literals (a valid boundary-heavy base literal with explicit primes, then at most one mutation out of ~55: logN outside [4,20], duplicate/composite/non-NTT-friendly/oversized primes, empty or doubly specified moduli, size requests of every size incl. custom root orders, invalid ring type/distributions, plaintext-modulus and default-scale classes); a reference validator decides whether the literal must be refused, may be refused, or must be accepted, and every accepted literal is exercised (ring arithmetic, encryption/decryption, encoding). gen/* = rlwe.GenModuli and ring.NTTFriendlyPrimesGenerator for every size 1..61 at one root order; rt/* = JSON/binary/literal round trips; derived/* = accessors vs definitions; shipped/* = one case per exported example/default set; boot/* = bootstrapping literals at small ring degree; lit/boundary-logN* = the ends of the admissible ring degrees (logN 3, 4, 20, 21) with primes that fit every degree; hang/* = size requests whose effective root order is >= 2^62, run under a 10 s deadline; ringc/* = direct calls of ring.NewRing / NewRingConjugateInvariant / NewRingFromType / NewRingWithCustomNTT (a valid call, then at most one mutation out of ~20: degree not a power of two or below 8, empty/duplicate/composite/zero/non-NTT-friendly moduli, primes of the other ring type, invalid ring type, 1 or up to 16 moduli) judged by a reference validator, every accepted ring exercised (accessors, reduction constants, factor lists and primitive roots of the sub-rings, arithmetic, ring-type conversion at a random level, binary and JSON encodings) and ring.Type through JSON; prim/* = ring.IsPrime and factorization.IsPrime against exact answers (trial division, known primes, Carmichael numbers and strong pseudoprimes), GetFactors / GetFactorPollardRho / GetFactorECM on integers whose prime factors are known by construction, PrimitiveRoot / CheckFactors / CheckPrimitiveRoot on NTT-friendly primes; gen/plural/* = the k-prime generator calls against k single calls, gen/generator-62-63/* = the generator at sizes 62 and 63; direct/* = rlwe.NewParameters, bgv.NewParameters and rlwe.CheckModuli called with the values of generated literals, differentially against the literal constructors and the reference validator (also rlwe parameters over the conjugate-invariant ring, with NTTFlag = false and the zero value given to bgv.NewParameters; distributions of foreign types; the documented noiseless instance), accessors not reached by derived/*, and parameter objects obtained through JSON, binary, ParametersLiteral, GetRLWEParameters and StandardParameters exercised like constructed ones; bootlit/* = defaults and refusals of the bootstrapping literal's getters, BitConsumption against the modulus the constructor adds. distinct key = (scheme, mutation, logN, ring type, #Q, #P, prime bit-lengths or requested sizes, distribution kinds, plaintext-modulus/scale class) for literals, (function, root order, size, count) for generators, (object kind, encoding, variant) for round trips, set name for shipped sets, (constructor, mutation, degree, ring type, modulus bit-lengths) for ring constructor calls, (class, bit-length) for primality/factorisation/primitive-root instances, (circuit class, Mod1 type, K, degrees) for BitConsumption; non-trivial = the literal is mutated, or carries a prime of <= logNthRoot+3 or >= 59 bits, or a size request, or a non-default distribution/ring type; generator requests with count >= 2 or size within 3 of the root order or >= 59; every round-trip, derived, shipped, boot, hang, ringc, prim, direct and bootlit case.",
 		Cases: cases,
 		Assumptions: []string{
 			"math/big (ProbablyPrime(24), products, comparisons) and the harness reference arithmetic are correct",
@@ -39,6 +39,8 @@ func init() {
 			"sizes of explicit primes between the documented maximum (60 bits for Q, 61 for P) and what CheckModuli's code refuses (63 / 64 bits) may be accepted or refused; if accepted the context must be sound",
 			"noise bounds are worst-case bounds derived from the declared distributions (truncation bound of the Gaussian, |s| <= 1 or the Gaussian bound)",
 			"a call that does not return within 10 s although the same call with valid arguments takes milliseconds is a hang",
+			"ring-level constructors are only given moduli of at most 61 bits (the sizes the scheme constructors let through) and the root orders 2N / 4N their documentation names; a ring degree of 8 may be accepted or refused",
+			"bootstrapping.ParametersLiteral.BitConsumption is compared with the modulus the constructor adds minus the residual default scale that parameters.go folds into the SlotsToCoeffs primes (the literal cannot know it)",
 		},
 	})
 }
@@ -348,7 +350,10 @@ func cases(tier string, seed int64) []eng.Case {
 	out = append(out, derivedCases(tier, seed)...)
 	out = append(out, shippedCases(tier, seed)...)
 	out = append(out, bootCases(tier, seed)...)
-	out = append(out, hangCases(tier, seed)...)
+	out = append(out, ringCases(tier, seed)...)
+	out = append(out, primCases(tier, seed)...)
+	out = append(out, directCases(tier, seed)...)
+	out = append(out, hangCases(tier, seed)...) // last: a hanging call keeps spinning until the worker exits
 	return out
 }
 
